@@ -224,6 +224,22 @@ def run_real(case):
                 if [len(got), end.split(":")[0]] != [per_cut[k][0], per_cut[k][1].split(":")[0]]:
                     problems.append(f"path reader at cut {k}: {len(got)} records/{end}, file-object reader "
                                     f"{per_cut[k]}")
+                # the same truncated file among the sources of record_stream() (what rdump iterates): it logs the damage
+                # and goes on to the next source, but the records in front of the damage come out first
+                import logging
+                from flow.record.stream import record_stream
+                logging.disable(logging.CRITICAL)
+                try:
+                    got2 = list(record_stream([p]))
+                except Exception as e:          # noqa: BLE001
+                    got2 = None
+                    problems.append(f"record_stream over the file cut at {k} raised {type(e).__name__}")
+                finally:
+                    logging.disable(logging.NOTSET)
+                ncuts += 1
+                if got2 is not None and [V.observe(r) for r in got2] != [V.observe(r) for r in got]:
+                    problems.append(f"record_stream over the file cut at {k} yields {len(got2)} records, the reader on the "
+                                    f"same file yields {len(got)} before it ends")
             if case.get("gz"):
                 gzdata = gzip.compress(data)
                 for k in range(len(gzdata) + 1):
